@@ -29,7 +29,7 @@ def R1_writers(run):
     facts = run.facts
     expect = {
         (W, "liquidity"): {W + "::initialize", W + "::update_after_swap", W + "::update_rewards_and_liquidity"},
-        (MW, "liquidity"): {MW + "::set_liquidity"},
+        (MW, "liquidity"): {MW + "::update_liquidity_and_reward_growth_global"},    # (its three private setters are read spliced in)
         ("state::tick::Tick", "liquidity_net"): {"state::tick::Tick::update"},
         ("state::tick::Tick", "liquidity_gross"): {"state::tick::Tick::update"},
         ("state::tick::Tick", "initialized"): {"state::tick::Tick::update"},
